@@ -256,6 +256,47 @@ type Pool struct {
 	Wide bool
 	// NoDangling forbids references to non-existing rows.
 	NoDangling bool
+	// Big draws atoms from a universe of 300 values per type and lets sets and maps have
+	// dozens of elements (sizes around 9-12, 30-40, 64-70 and 100-120): size thresholds.
+	Big bool
+}
+
+// bigSizes are the collection sizes of the Big mode.
+var bigSizes = []int{9, 10, 12, 17, 31, 33, 40, 63, 64, 65, 70, 100, 120}
+
+// bigAtom draws the i-th value of the Big universe of a base type (ok=false: no such universe).
+func bigAtom(t *rapid.T, b Base) (Atom, bool) {
+	i := rapid.IntRange(0, 299).Draw(t, "bigatom")
+	switch b.T {
+	case TInt:
+		v := int64(i)
+		if b.MinInteger != nil && v < *b.MinInteger {
+			v = *b.MinInteger
+		}
+		if b.MaxInteger != nil && v > *b.MaxInteger {
+			v = *b.MaxInteger
+		}
+		return Int(v), true
+	case TReal:
+		f := float64(i) * 0.5
+		if b.MinReal != nil && f < *b.MinReal {
+			f = *b.MinReal
+		}
+		if b.MaxReal != nil && f > *b.MaxReal {
+			f = *b.MaxReal
+		}
+		return Real(f), true
+	case TStr:
+		if b.MinLength != nil || b.MaxLength != nil {
+			return Atom{}, false
+		}
+		return Str(fmt.Sprintf("s%d", i)), true
+	case TUUID:
+		if b.Ref == nil {
+			return UUID(MkUUID(710000 + i)), true
+		}
+	}
+	return Atom{}, false
 }
 
 // MkUUID builds the n-th deterministic UUID.
@@ -270,6 +311,11 @@ var hostileStrings = []string{"\"", "\\", "é", "日本", "a\nb", "\u0000", "set
 func GenAtom(t *rapid.T, b Base, pool *Pool) Atom {
 	if len(b.Enum) > 0 {
 		return rapid.SampledFrom(b.Enum).Draw(t, "enumv")
+	}
+	if pool != nil && pool.Big {
+		if a, ok := bigAtom(t, b); ok {
+			return a
+		}
 	}
 	wide := pool != nil && pool.Wide && rapid.IntRange(0, 9).Draw(t, "wide") < 3
 	switch b.T {
@@ -382,8 +428,16 @@ func GenVal(t *rapid.T, c Col, pool *Pool) Val {
 			max = 4
 		}
 		n := rapid.IntRange(c.Min, max).Draw(t, "setlen")
+		tryLimit := 12
+		if pool != nil && pool.Big && (c.Max < 0 || c.Max > 4) && rapid.IntRange(0, 2).Draw(t, "bigset") > 0 {
+			n = rapid.SampledFrom(bigSizes).Draw(t, "bigsetlen")
+			if c.Max >= 0 && n > c.Max {
+				n = c.Max
+			}
+			tryLimit = 3 * n
+		}
 		v := EmptySet()
-		for tries := 0; len(v.K) < n && tries < 12; tries++ {
+		for tries := 0; len(v.K) < n && tries < tryLimit; tries++ {
 			v = v.With(GenAtom(t, c.Key, pool))
 		}
 		// cannot always reach n with a tiny universe (bool, enum); make sure Min holds if possible
@@ -394,8 +448,16 @@ func GenVal(t *rapid.T, c Col, pool *Pool) Val {
 			max = 3
 		}
 		n := rapid.IntRange(c.Min, max).Draw(t, "maplen")
+		tryLimit := 12
+		if pool != nil && pool.Big && (c.Max < 0 || c.Max > 3) && rapid.IntRange(0, 2).Draw(t, "bigmap") > 0 {
+			n = rapid.SampledFrom(bigSizes).Draw(t, "bigmaplen")
+			if c.Max >= 0 && n > c.Max {
+				n = c.Max
+			}
+			tryLimit = 3 * n
+		}
 		v := EmptyMap()
-		for tries := 0; len(v.K) < n && tries < 12; tries++ {
+		for tries := 0; len(v.K) < n && tries < tryLimit; tries++ {
 			v = v.WithPair(GenAtom(t, c.Key, pool), GenAtom(t, *c.Value, pool))
 		}
 		return v
